@@ -63,7 +63,7 @@ type ServerKeyFields struct {
 // UnmarshalJSON implements json.Unmarshaler
 func (keys *ServerKeys) UnmarshalJSON(data []byte) error {
 	keys.Raw = data
-	return json.Unmarshal(data, &keys.ServerKeyFields)
+	return unmarshalExact(data, &keys.ServerKeyFields)
 }
 
 // MarshalJSON implements json.Marshaler
